@@ -234,3 +234,43 @@ func Files(w *ir.World, order []string) []dump.File {
 	}
 	return out
 }
+
+// PrintMarks compares the RO: / rw: marks of Entry.Print with ReadOnly() node by node: Print walks
+// the child maps in name order, one marked line per node.
+func PrintMarks(e *yang.Entry) string {
+	var sb strings.Builder
+	e.Print(&sb)
+	var marks []bool
+	for _, l := range strings.Split(sb.String(), "\n") {
+		switch t := strings.TrimLeft(l, " "); {
+		case strings.HasPrefix(t, "RO: "):
+			marks = append(marks, true)
+		case strings.HasPrefix(t, "rw: "):
+			marks = append(marks, false)
+		}
+	}
+	var paths []string
+	var want []bool
+	var walk func(x *yang.Entry, p string)
+	walk = func(x *yang.Entry, p string) {
+		paths, want = append(paths, p), append(want, x.ReadOnly())
+		var ks []string
+		for k := range x.Dir {
+			ks = append(ks, k)
+		}
+		sort.Strings(ks)
+		for _, k := range ks {
+			walk(x.Dir[k], p+"/"+k)
+		}
+	}
+	walk(e, "")
+	if len(marks) != len(want) {
+		return fmt.Sprintf("Print marks %d nodes, the tree has %d", len(marks), len(want))
+	}
+	for i := range want {
+		if marks[i] != want[i] {
+			return fmt.Sprintf("%s: printed read-only=%v, ReadOnly()=%v", paths[i], marks[i], want[i])
+		}
+	}
+	return ""
+}
